@@ -27,6 +27,16 @@ def c15_classify(inp, out):
     return ks
 
 
+def c08_classify(inp, out):
+    f = inp.split("|")
+    if f[0] == "b64":
+        return ["kind:b64", "b64:" + ("err" if "dec=err" in out else "ok")]
+    res = out.split(" ")[-1]
+    _, entry, alg, vm, proc, claims, form, mut = f
+    return ["entry:" + entry, "alg:" + alg, "vm:" + vm.rsplit("-", 1)[0], "proc:" + ":".join(proc.split(":")[1:]),
+            "form:" + form, "mut:" + ":".join(mut.split(":")[:2]), res, "mut/res:" + mut.split(":")[0] + "/" + res]
+
+
 def c14_classify(inp, out):
     cfg, ops = inp.split("|", 1)
     f = cfg.split(",")
@@ -171,6 +181,29 @@ PROPS = {
                          "encoding/json of the inbox document (modelled as the list + count it carries)"],
         "assumptions": ["handlers are driven synchronously through the verif hook (goroutine dispatch of HandleInbound is C13/C03)",
                         "single fault per operation, as the property quantifies"],
+    },
+    "C08": {
+        "lean_files": ["AriesVerif/Base/B64.lean", "AriesVerif/C08/Model.lean", "AriesVerif/C08/Props.lean",
+                       "AriesVerif/C08/Drv.lean"],
+        "lake_targets": ["AriesVerif"],
+        "classify": c08_classify,
+        "nontrivial": lambda inp, out: out.endswith("res=acc") or ("|none" not in inp and out.endswith("res=rej")),
+        "thorough_seeds": 2,
+        "rule": "hand-built compact tokens: entry point (jose.ParseJWS+jwt.NewVerifier, jwt.Parse, didsignjwt.VerifyJWT, "
+                "jwt.GetVerifier) x header alg (7 algorithms, none, HS256, other spellings) x verification method (6 key types, raw "
+                "and JWK, overlapping ids k-1/k-11) x signing procedure (key, hash, P1363/DER, PSS/PKCS1; another key of the type; "
+                "unsigned) x attached / detached / b64=false x text mutation (character flip at any position of each part, unused "
+                "bits of the last character, line break, padding, header alg / kid rewritten, signature stripped, extra segment, "
+                "altered detached payload); plus random strings for the base64url tie; non-trivial = an accepted token or a "
+                "rejected mutated/crossed one; distinct (input class, outcome)",
+        "trusted_base": ["ideal signatures: only (key, procedure, message, signature) tuples the harness produced verify "
+                         "(EUF-CMA; ECDSA (r, n-s) twin outside the model)",
+                         "Go crypto (ed25519, ecdsa, rsa, btcec) for signing in the harness",
+                         "Lean.Json parser standing in for encoding/json on the header (any disagreement on malformed headers ends in "
+                         "a rejection on both sides because the header text is part of the signed message)"],
+        "assumptions": ["one resolvable DID with 26 verification methods; key material generated once per run",
+                        "DER-encoded ECDSA signatures are accepted on purpose (both encodings are a signature by the key)",
+                        "completeness is not demanded by the property: a rejected honest token is only an L2 (model) matter"],
     },
     "C14": {
         "lean_files": ["AriesVerif/C14/Model.lean", "AriesVerif/C14/Props.lean", "AriesVerif/C14/Drv.lean"],
